@@ -21,6 +21,18 @@ def tiers(quick_checks, thorough_checks, quick_budget=25, thorough_budget=420, c
     }
 
 PROPS = {
+    "C07": {
+        "tiers": tiers(3000, 120000),
+        "rule": "rapid-generated scenario: 1-3 registrations on one event type (at least one Sequential; sync or Async), 1-4 publisher tasks each publishing 1-8 tagged events one after another, handler bodies that yield 1-5 times between their enter and exit marks, optionally publishing through an interface-typed value (reflection dispatch path), + choice tape. Non-trivial: >=1 decision point with >=2 ready tasks; distinct = (scenario shape, schedule trace hash, history hash).",
+        "components": REAL_BUS,
+        "assumptions": COMMON_ASSUME,
+    },
+    "C05": {
+        "tiers": tiers(3000, 120000),
+        "rule": "rapid-generated scenario: 1-6 registrations on one event type (plain/context-aware alternating, option subsets of Once/Async/Sequential/filter), each with a set of invocation numbers on which it panics and one of five panic-value kinds (string, error, struct, runtime.Error, nil), 1-6 consecutive publishes, panic handler installed or not, Wait after every publish or only at the end, + choice tape for the async tasks. Fault = injected handler panic. Non-trivial: at least one panic was actually raised; distinct = (scenario shape, schedule trace hash, history hash).",
+        "components": REAL_BUS,
+        "assumptions": COMMON_ASSUME,
+    },
     "C01": {
         "tiers": tiers(3000, 150000),
         "rule": "rapid-generated operation sequence (1-30 of Subscribe/SubscribeContext, Unsubscribe, Clear, ClearAll, Publish/PublishContext, HasHandlers, HandlerCount) by one client task over a pool of 1/2/3/6/40 of the 40 generated event types (40 > any shard count, so routing is shared), option subsets of Once/Async/Sequential/filter, the same function subscribed repeatedly, and per-function scripts of re-entrant operations executed from inside handlers; compared operation by operation with a reference registry (snapshot-at-publish semantics). Async deliveries run as simulator tasks. Non-trivial: more than one operation; distinct = (scenario shape, schedule trace hash, history hash).",
